@@ -537,12 +537,41 @@ impl<S: Storage> Builder<S> {
             .name(&format!("{id}.{name}"))
             .spawn(
                 async move {
-                    while let Some(item) = stream.next().await {
+                    loop {
+                        // A panic inside an operator must not look like a normal end of stream:
+                        // catch it and forward it to the subscribers as an error item.
+                        let polled = std::future::poll_fn(|cx| {
+                            let poll =
+                                std::panic::catch_unwind(std::panic::AssertUnwindSafe(|| {
+                                    stream.poll_next_unpin(cx)
+                                }));
+                            match poll {
+                                Ok(poll) => poll.map(Ok),
+                                Err(payload) => std::task::Poll::Ready(Err(payload)),
+                            }
+                        })
+                        .await;
+                        let mut panicked = false;
+                        let item = match polled {
+                            Ok(Some(item)) => item,
+                            Ok(None) => break,
+                            Err(payload) => {
+                                panicked = true;
+                                let message = if let Some(s) = payload.downcast_ref::<&str>() {
+                                    s.to_string()
+                                } else if let Some(s) = payload.downcast_ref::<String>() {
+                                    s.clone()
+                                } else {
+                                    "unknown panic".to_string()
+                                };
+                                Err(ExecutorError::panicked(message))
+                            }
+                        };
                         if let Ok(chunk) = &item {
                             output_row_counter.inc(chunk.cardinality() as _);
                         }
-                        if tx.broadcast(item).await.is_err() {
-                            // all receivers are dropped, stop the task.
+                        if tx.broadcast(item).await.is_err() || panicked {
+                            // all receivers are dropped, or the stream is gone: stop the task.
                             return;
                         }
                     }
